@@ -1262,6 +1262,18 @@ pub fn execute(spec: &RunSpec, budgets: &[Budget], opts: &ExecOpts) -> RunResult
         }
     }
 
+    if let Some(v) = shadow_violation {
+        // the same instance driven by next() already violates the property; the comparison of
+        // an adapter with that shadow would be meaningless, the shadow's violation is the result
+        return RunResult {
+            violation: Some(v),
+            fp: 0,
+            events: if opts.record { Some(Vec::new()) } else { None },
+            first_seq_kept: 1,
+            insts: (0..n).map(|_| empty_summary()).collect(),
+        };
+    }
+
     // F5 baselines, taken before the joint run: every instance alone
     let mut solo: Vec<(u64, bool)> = Vec::new();
     if n > 1 && opts.check_isolation && spec.solo_baselines {
@@ -1410,9 +1422,6 @@ pub fn execute(spec: &RunSpec, budgets: &[Budget], opts: &ExecOpts) -> RunResult
         };
     }
     let mut violation = ctx.violation.borrow_mut().take();
-    if violation.is_none() {
-        violation = shadow_violation;
-    }
     let (fp, inst_fps, events, seq) = {
         let mut log = ctx.log.borrow_mut();
         (log.fp.0, log.inst_fp.iter().map(|f| f.0).collect::<Vec<_>>(), log.events.take(), log.seq)
